@@ -119,7 +119,20 @@ void run_exec(const ExecPlan &pl) {
     } else {
         std::lock_guard<std::mutex> g(pc.mu);
         index_calls = pc.calls;
+        pc.calls.clear();
     }
+    // the segmentation builder on its own, with epsilons that no index template uses (0 in particular), sequentially
+    struct ExtraDirect { size_t eps; std::vector<CS> segs; size_t ret; std::vector<SegCallRec> calls; };
+    std::vector<ExtraDirect> extra_direct;
+    if (pl.direct && res == "ok" && n <= 600)
+        for (size_t eps2 : {size_t(0), size_t(Eps == 1 ? 3 : 1)}) {
+            ExtraDirect ed{eps2, {}, 0, {}};
+            auto in = [&](size_t i) { return data[i]; };
+            auto o = [&](const CS &cs) { ed.segs.push_back(cs); };
+            ed.ret = pgm::internal::make_segmentation(n, eps2, in, o);
+            { std::lock_guard<std::mutex> g(pc.mu); ed.calls = pc.calls; pc.calls.clear(); }
+            extra_direct.push_back(std::move(ed));
+        }
     pc.uninstall();
 
     // ---- queries ----
@@ -220,7 +233,7 @@ void run_exec(const ExecPlan &pl) {
     }
     if (res != "ok") { out.begin("End").end(); return; }
 
-    auto log_calls = [&](const std::vector<SegCallRec> &calls, const char *src, const std::vector<CS> *css, size_t ret) {
+    auto log_calls = [&](const std::vector<SegCallRec> &calls, const char *src, const std::vector<CS> *css, size_t ret, int call_chunks) {
         // calls of one make_segmentation_par invocation are logged in chunk order
         std::vector<const SegCallRec *> ord;
         for (auto &c : calls) ord.push_back(&c);
@@ -238,7 +251,7 @@ void run_exec(const ExecPlan &pl) {
             }
             cs += "]";
             auto &o = out.begin("SegCall").str("src", src).num("n", (long long) ord[i]->n).num("eps", (long long) ord[i]->eps)
-                .num("level0", ord[i]->n == n && ord[i]->eps == Eps ? 1 : 0).raw("calls", cs);
+                .num("level0", ord[i]->n == n && (ord[i]->eps == Eps || css) ? 1 : 0).num("chunks", ord[i]->n == n ? call_chunks : 1).raw("calls", cs);
             if (css && ord[i]->n == n) {
                 // reported lines: slope as an exact fraction (recovered from the long double), rounded intercept
                 std::vector<std::vector<long long>> sg;
@@ -254,8 +267,10 @@ void run_exec(const ExecPlan &pl) {
             i = j;
         }
     };
-    log_calls(index_calls, "index", nullptr, 0);
-    if (pl.direct) log_calls(direct_calls, "direct", &direct_segs, direct_ret);
+    int used_chunks = pl.chunks > 1 ? pl.chunks : real_chunks;
+    log_calls(index_calls, "index", nullptr, 0, used_chunks);
+    if (pl.direct) log_calls(direct_calls, "direct", &direct_segs, direct_ret, used_chunks);
+    for (auto &ed : extra_direct) log_calls(ed.calls, "direct", &ed.segs, ed.ret, 1);
 
     // ---- searches ----
     std::vector<pgm::verif::RouteStep> rl;
